@@ -1,21 +1,119 @@
 package main
 
 import (
+	"context"
 	"database/sql"
+	"database/sql/driver"
+	"encoding/json"
 	"errors"
 	"fmt"
+	"io"
 	"math/rand"
 	"reflect"
 	"strings"
+	"sync/atomic"
+	"time"
 
+	sqlite3 "github.com/mattn/go-sqlite3"
+	"gorm.io/driver/sqlite"
 	"gorm.io/gorm"
 	"gorm.io/gorm/clause"
+	"gorm.io/gorm/logger"
 )
 
 // C05: each single write is all-or-nothing under a fault at ANY driver call, reports the failure,
 // and leaves no transaction open / no connection checked out.
+//
+// Dimensions varied by the "fault" suite (see c05Scenario):
+//   op     10 write operations over generated record graphs (c05Ops)
+//   where  the handle the operation runs on: plain / ctx-bound / TranslateError with a wrapping translator /
+//          PrepareStmt / inside a user transaction (Begin … Commit|Rollback) / inside a Transaction block /
+//          SkipDefaultTransaction (premise "default settings" does not hold: only "error reported" and
+//          "nothing left open" are demanded)
+//   mech   how the k-th driver call fails: "inject" (the driver call returns a chosen error VALUE) or "cancel"
+//          (the operation's context is cancelled while the k-th call is made, so database/sql itself produces
+//          the failure of the following statement / of the COMMIT: context.Canceled or sql.ErrTxDone)
+//   err    the error value (c05ErrAlphabet): generic, well-known sentinels that code may special-case, wrapped
+//          sentinels, driver-specific values, an error with an empty message
+//   at     every driver-call index (BEGIN, every statement, PREPARE, COMMIT)
+//
+// Oracle (only what the property text states):
+//   * an injected failure of BEGIN / a statement / COMMIT must surface in the returned error (text of the
+//     injected value contained in err.Error() – AddError joins several errors textually);
+//   * err != nil  =>  every table is exactly as before;      err == nil  =>  the tables equal the fully applied
+//     state (taken from a fault-free run on an identical world) – "applies completely or leaves the database
+//     exactly as it was"; err == nil is only acceptable where no driver call was made to fail (cancel mechanism
+//     when the cancellation came too late, driver.ErrBadConn retried away by database/sql);
+//   * afterwards no driver-level transaction is open and no connection is checked out (database/sql finishes
+//     a transaction whose context was cancelled asynchronously: the judge waits up to 5 s for that).
 
 var errInjected = errors.New("verif: injected driver fault")
+
+// c05EmptyErr: a non-nil error with an empty message that unwraps to nil
+type c05EmptyErr struct{}
+
+func (c05EmptyErr) Error() string { return "" }
+func (c05EmptyErr) Unwrap() error { return nil }
+
+type c05NamedErr struct {
+	Name string
+	Err  error
+}
+
+// c05ErrAlphabet: values a driver call may fail with.  Index 0 is the generic one.
+var c05ErrAlphabet = []c05NamedErr{
+	{"generic", errInjected},
+	{"sql.ErrTxDone", sql.ErrTxDone},
+	{"sql.ErrConnDone", sql.ErrConnDone},
+	{"sql.ErrNoRows", sql.ErrNoRows},
+	{"driver.ErrBadConn", driver.ErrBadConn},
+	{"context.Canceled", context.Canceled},
+	{"context.DeadlineExceeded", context.DeadlineExceeded},
+	{"io.EOF", io.EOF},
+	{"io.ErrUnexpectedEOF", io.ErrUnexpectedEOF},
+	{"gorm.ErrRecordNotFound", gorm.ErrRecordNotFound},
+	{"gorm.ErrInvalidTransaction", gorm.ErrInvalidTransaction},
+	{"gorm.ErrDuplicatedKey", gorm.ErrDuplicatedKey},
+	{"gorm.ErrMissingWhereClause", gorm.ErrMissingWhereClause},
+	{"gorm.ErrDryRunModeUnsupported", gorm.ErrDryRunModeUnsupported},
+	{"wrapped(sql.ErrTxDone)", fmt.Errorf("c05 wrap: %w", sql.ErrTxDone)},
+	{"wrapped(driver.ErrBadConn-text)", errors.New("c05: " + driver.ErrBadConn.Error())},
+	{"wrapped(context.Canceled)", fmt.Errorf("c05 wrap: %w", context.Canceled)},
+	{"wrapped(gorm.ErrRecordNotFound)", fmt.Errorf("c05 wrap: %w", gorm.ErrRecordNotFound)},
+	{"sqlite3.ErrBusy", sqlite3.Error{Code: sqlite3.ErrBusy}},
+	{"sqlite3.ErrConstraintUnique", sqlite3.Error{Code: sqlite3.ErrConstraint, ExtendedCode: sqlite3.ErrConstraintUnique}},
+	{"sqlite3.ErrInterrupt", sqlite3.Error{Code: sqlite3.ErrInterrupt}},
+	{"empty-message", c05EmptyErr{}},
+}
+
+func c05ErrByName(n string) (c05NamedErr, bool) {
+	for _, e := range c05ErrAlphabet {
+		if e.Name == n {
+			return e, true
+		}
+	}
+	return c05NamedErr{}, false
+}
+
+var c05Wheres = []string{"plain", "ctx", "translate", "prepare", "usertx", "block", "skipdefault"}
+
+// c05Translated: what the wrapping translator turns an injected value into ("a commit error wrapped by the
+// dialector's Translate"); every other error passes through unchanged, as real translators do
+type c05Translated struct{ inner error }
+
+func (e c05Translated) Error() string { return "c05-translated(" + e.inner.Error() + ")" }
+func (e c05Translated) Unwrap() error { return e.inner }
+
+type c05Dialector struct{ sqlite.Dialector }
+
+func (d c05Dialector) Translate(err error) error {
+	for _, e := range c05ErrAlphabet {
+		if reflect.TypeOf(err).Comparable() && reflect.TypeOf(e.Err).Comparable() && err == e.Err && err != gorm.ErrInvalidTransaction {
+			return c05Translated{err}
+		}
+	}
+	return err
+}
 
 type c05Op struct {
 	Name  string
@@ -40,8 +138,19 @@ func c05Ops() []c05Op {
 			return func(db *gorm.DB) error { x, y := *a, *b; us := []*RUser{&x, &y}; return db.Create(&us).Error }
 		}},
 		{"CreateInBatches", func(db *gorm.DB, rng *rand.Rand) func(*gorm.DB) error {
-			a, b, c := genUser(rng, "d"), genUser(rng, "e"), genUser(rng, "f")
-			return func(db *gorm.DB) error { us := []RUser{*a, *b, *c}; return db.CreateInBatches(&us, 2).Error }
+			n := 3 + rng.Intn(4)
+			size := 1 + rng.Intn(3)
+			var us []*RUser
+			for i := 0; i < n; i++ {
+				us = append(us, genUser(rng, fmt.Sprint("d", i)))
+			}
+			return func(db *gorm.DB) error {
+				cp := make([]RUser, len(us))
+				for i := range us {
+					cp[i] = *us[i]
+				}
+				return db.CreateInBatches(&cp, size).Error
+			}
 		}},
 		{"SaveExistingFull", func(db *gorm.DB, rng *rand.Rand) func(*gorm.DB) error {
 			u := loadFirst(db)
@@ -84,24 +193,141 @@ func c05Ops() []c05Op {
 	}
 }
 
-type c05World struct {
-	db    *gorm.DB
-	rec   *Recorder
-	sqlDB *sql.DB
-	run   func(*gorm.DB) error
+func c05OpByName(n string) (c05Op, bool) {
+	for _, o := range c05Ops() {
+		if o.Name == n {
+			return o, true
+		}
+	}
+	return c05Op{}, false
 }
 
-func c05Build(op c05Op, seed int64) *c05World {
-	db, rec, sqlDB := OpenRec(nil)
+// c05OpenDB: like OpenRec, plus (a) a held keep-alive connection so that the shared in-memory database survives
+// connections discarded by database/sql (ErrBadConn, cancelled transactions), (b) the configuration of `where`.
+func c05OpenDB(where string) (*gorm.DB, *Recorder, *sql.DB, *sql.Conn) {
+	n := atomic.AddInt64(&memCounter, 1)
+	dsn := fmt.Sprintf("file:verifmemc05x%d?mode=memory&cache=shared", n)
+	rec := &Recorder{}
+	sqlDB := sql.OpenDB(&recConnector{dsn: dsn, drv: &sqlite3.SQLiteDriver{}, rec: rec})
+	sqlDB.SetMaxIdleConns(4)
+	keep, err := sqlDB.Conn(context.Background())
+	if err != nil {
+		panic(err)
+	}
+	if err := keep.PingContext(context.Background()); err != nil {
+		panic(err)
+	}
+	cfg := &gorm.Config{Logger: logger.Discard, NowFunc: fixedNowFunc}
+	var dial gorm.Dialector = sqlite.Dialector{Conn: sqlDB}
+	switch where {
+	case "translate":
+		cfg.TranslateError = true
+		dial = c05Dialector{sqlite.Dialector{Conn: sqlDB}}
+	case "prepare":
+		cfg.PrepareStmt = true
+	case "skipdefault":
+		cfg.SkipDefaultTransaction = true
+	}
+	db, err := gorm.Open(dial, cfg)
+	if err != nil {
+		panic(err)
+	}
+	return db, rec, sqlDB, keep
+}
+
+type c05World struct {
+	where  string
+	db     *gorm.DB
+	rec    *Recorder
+	sqlDB  *sql.DB
+	keep   *sql.Conn
+	run    func(*gorm.DB) error
+	tables []string
+}
+
+func (w *c05World) Close() {
+	_ = w.keep.Close()
+	_ = w.sqlDB.Close()
+}
+
+func c05Build(op c05Op, seed int64, where string) *c05World {
+	db, rec, sqlDB, keep := c05OpenDB(where)
 	if err := db.AutoMigrate(relModels...); err != nil {
 		panic(err)
 	}
 	rng := rand.New(rand.NewSource(seed))
 	seedRel(db, rng, 3)
-	w := &c05World{db: db, rec: rec, sqlDB: sqlDB}
+	w := &c05World{where: where, db: db, rec: rec, sqlDB: sqlDB, keep: keep, tables: relTables}
 	w.run = op.Setup(db, rng)
 	rec.Reset()
 	return w
+}
+
+// exec runs the world's operation on the handle shape of `where`, bound to ctx (nil = no context)
+func (w *c05World) exec(ctx context.Context) error {
+	h := w.db
+	if ctx != nil {
+		h = h.WithContext(ctx)
+	}
+	switch w.where {
+	case "usertx":
+		tx := h.Begin()
+		err := w.run(tx)
+		if err != nil {
+			tx.Rollback()
+			return err
+		}
+		return tx.Commit().Error
+	case "block":
+		return h.Transaction(func(tx *gorm.DB) error { return w.run(tx) })
+	}
+	return w.run(h)
+}
+
+func c05DumpTables(db *gorm.DB, rec *Recorder, tables []string) map[string][]string {
+	rec.mu.Lock()
+	off := rec.Off
+	rec.Off = true
+	rec.mu.Unlock()
+	defer func() { rec.mu.Lock(); rec.Off = off; rec.mu.Unlock() }()
+	out := map[string][]string{}
+	raw := db.Session(&gorm.Session{NewDB: true, SkipHooks: true, Context: context.Background()})
+	for _, t := range tables {
+		rows, err := raw.Raw("SELECT * FROM " + t + " ORDER BY 1, 2").Rows()
+		if err != nil {
+			out[t] = []string{"ERR " + err.Error()}
+			continue
+		}
+		cols, _ := rows.Columns()
+		list := []string{}
+		for rows.Next() {
+			vals := make([]interface{}, len(cols))
+			ptrs := make([]interface{}, len(cols))
+			for i := range vals {
+				ptrs[i] = &vals[i]
+			}
+			_ = rows.Scan(ptrs...)
+			list = append(list, fmt.Sprint(vals...))
+		}
+		rows.Close()
+		out[t] = list
+	}
+	return out
+}
+
+func (w *c05World) dump() map[string][]string { return c05DumpTables(w.db, w.rec, w.tables) }
+
+// quiesce waits (bounded) until database/sql has finished what a cancelled context makes it finish asynchronously
+func (w *c05World) quiesce() (openTx int64, inUse int) {
+	dl := time.Now().Add(5 * time.Second)
+	for {
+		openTx = atomic.LoadInt64(&w.rec.OpenTx)
+		inUse = w.sqlDB.Stats().InUse - 1 // the keep-alive connection
+		if (openTx == 0 && inUse == 0) || time.Now().After(dl) {
+			return
+		}
+		time.Sleep(200 * time.Microsecond)
+	}
 }
 
 func committedBefore(evs []Event, k int) bool {
@@ -119,6 +345,117 @@ func faultable(e Event) bool {
 		return true
 	}
 	return false
+}
+
+type c05Scenario struct {
+	Op    string `json:"op"`
+	Seed  int64  `json:"graph_seed"`
+	Where string `json:"where"`
+	Mech  string `json:"mech"` // inject | cancel
+	Err   string `json:"err"`  // name in c05ErrAlphabet (inject)
+	At    int    `json:"fault_at"`
+	Event string `json:"fault_event,omitempty"`
+}
+
+type c05Outcome struct {
+	Hit      bool
+	Err      error
+	Events   []Event
+	FaultEv  Event
+	Dump     map[string][]string
+	OpenTx   int64
+	InUse    int
+	Verdict  string
+	Absorbed bool
+}
+
+// c05RunOne runs the world's operation once with the scenario's fault and judges it.
+func c05RunOne(w *c05World, sc c05Scenario, dump0, applied map[string][]string) c05Outcome {
+	var o c05Outcome
+	w.rec.Reset()
+	var ctx context.Context
+	var cancel context.CancelFunc = func() {}
+	if w.where != "plain" || sc.Mech == "cancel" {
+		ctx, cancel = context.WithCancel(WithMarker(context.Background(), "c05"))
+	}
+	defer cancel()
+	ne, _ := c05ErrByName(sc.Err)
+	retries := 0 // driver.ErrBadConn: database/sql silently retries the call on other connections; fail those too
+	w.rec.Fault = func(idx int, ev *Event) error {
+		if !faultable(*ev) {
+			return nil
+		}
+		if idx == sc.At {
+			o.Hit = true
+			o.FaultEv = *ev
+			if sc.Mech == "cancel" {
+				cancel()
+				return nil
+			}
+			if ne.Err == driver.ErrBadConn {
+				retries = 3
+			}
+			return ne.Err
+		}
+		if retries > 0 && idx > sc.At && ev.Kind == o.FaultEv.Kind && ev.SQL == o.FaultEv.SQL {
+			retries--
+			return ne.Err
+		}
+		retries = 0
+		return nil
+	}
+	o.Err = w.exec(ctx)
+	w.rec.mu.Lock()
+	w.rec.Fault = nil
+	w.rec.mu.Unlock()
+	o.OpenTx, o.InUse = w.quiesce()
+	o.Events = w.rec.Snapshot()
+	if !o.Hit {
+		return o
+	}
+	o.Dump = w.dump()
+	same := reflect.DeepEqual(dump0, o.Dump)
+	full := applied != nil && reflect.DeepEqual(applied, o.Dump)
+	atomicDemanded := w.where != "skipdefault"
+	switch {
+	case sc.Mech == "inject" && o.Err == nil && !(ne.Err == driver.ErrBadConn && full):
+		o.Verdict = "operation reported no error although a driver call failed with " + sc.Err
+	case sc.Mech == "inject" && o.Err != nil && !strings.Contains(o.Err.Error(), ne.Err.Error()):
+		o.Verdict = "result error does not mention the driver failure " + sc.Err + ": " + o.Err.Error()
+	case atomicDemanded && o.Err != nil && !same:
+		o.Verdict = "database changed although the operation failed"
+	case atomicDemanded && o.Err == nil && !full:
+		if same {
+			o.Verdict = "operation reported success but nothing was stored (its transaction did not commit)"
+		} else {
+			o.Verdict = "operation reported success but was applied only partially"
+		}
+	case o.OpenTx != 0:
+		o.Verdict = fmt.Sprintf("%d transaction(s) left open", o.OpenTx)
+	case o.InUse != 0:
+		o.Verdict = fmt.Sprintf("%d connection(s) left checked out", o.InUse)
+	}
+	o.Absorbed = o.Err == nil
+	return o
+}
+
+// c05Probe: fault-free run on an identical world: the events and the fully applied state
+func c05Probe(op c05Op, seed int64, where string) (evs []Event, applied map[string][]string, err error) {
+	p := c05Build(op, seed, where)
+	defer p.Close()
+	var ctx context.Context
+	if where != "plain" {
+		ctx = WithMarker(context.Background(), "c05")
+	}
+	err = p.exec(ctx)
+	evs = p.rec.Snapshot()
+	applied = p.dump()
+	return
+}
+
+func c05Obs(o c05Outcome, dump0 map[string][]string) map[string]interface{} {
+	return map[string]interface{}{"error": fmt.Sprint(o.Err), "events": evKinds(o.Events), "before": dump0, "after": o.Dump,
+		"open_tx": o.OpenTx, "in_use": o.InUse}
 }
 
 // firingOrder wraps every registered built-in of a pipeline (looked up by the names in facts.json) with a
@@ -177,6 +514,180 @@ func firingOrder(kind string) []string {
 	return fired
 }
 
+// c05ErrsFor: which error values to try at one driver call.  BEGIN and COMMIT get the whole alphabet (their
+// error paths are the ones nothing else exercises); statements get the generic value plus two drawn ones.
+func c05ErrsFor(ev Event, rng *rand.Rand, tier string) []c05NamedErr {
+	var out []c05NamedErr
+	if ev.Kind == "begin" || ev.Kind == "commit" {
+		for _, e := range c05ErrAlphabet {
+			if ev.Kind == "begin" && e.Err == gorm.ErrInvalidTransaction {
+				// callbacks/transaction.go treats exactly this value, coming out of Begin, as "already inside a
+				// transaction"; a driver never returns gorm's own sentinel from BeginTx
+				continue
+			}
+			out = append(out, e)
+		}
+		if tier == "quick" && len(out) > 8 {
+			// generic + a rotating window over the sentinels: every value is reached within a few graphs
+			rng.Shuffle(len(out)-1, func(i, j int) { out[i+1], out[j+1] = out[j+1], out[i+1] })
+			out = out[:8]
+		}
+		return out
+	}
+	out = append(out, c05ErrAlphabet[0])
+	n := 1
+	if tier != "quick" {
+		n = 3
+	}
+	for i := 0; i < n; i++ {
+		out = append(out, c05ErrAlphabet[1+rng.Intn(len(c05ErrAlphabet)-1)])
+	}
+	return out
+}
+
+func c05FaultSuite(r *Result, rng *rand.Rand, tier string) {
+	graphs := 12
+	if tier == "thorough" {
+		graphs = 150
+	} else if tier == "search" {
+		graphs = 20
+	}
+	ops := c05Ops()
+	for g := 0; g < graphs && !expired(); g++ {
+		for oi, op := range ops {
+			seed := rng.Int63()
+			where := c05Wheres[(g+oi)%len(c05Wheres)]
+			if g == 0 {
+				where = "ctx"
+			}
+			pevs, applied, perr := c05Probe(op, seed, where)
+			if perr != nil {
+				r.Note("probe of %s/%s failed without fault: %v", op.Name, where, perr)
+				continue
+			}
+			w := c05Build(op, seed, where)
+			dump0 := w.dump()
+			rebuild := func() {
+				w.Close()
+				w = c05Build(op, seed, where)
+				dump0 = w.dump()
+			}
+			// k runs over the driver-call indices of THIS world's run (a PrepareStmt world prepares less on later
+			// runs, so the loop ends when the index is no longer reached rather than at the probe's length)
+			for k := 0; k < len(pevs)+4; k++ {
+				label := Event{Kind: "?"}
+				if k < len(pevs) {
+					label = pevs[k]
+					if !faultable(label) && where != "prepare" {
+						continue
+					}
+				}
+				type trial struct{ mech, err string }
+				trials := []trial{{"cancel", ""}}
+				for _, e := range c05ErrsFor(label, rng, tier) {
+					trials = append(trials, trial{"inject", e.Name})
+				}
+				reached := false
+				for _, t := range trials {
+					sc := c05Scenario{Op: op.Name, Seed: seed, Where: where, Mech: t.mech, Err: t.err, At: k}
+					o := c05RunOne(w, sc, dump0, applied)
+					sc.Event = o.FaultEv.Kind + " " + trunc(o.FaultEv.SQL, 60)
+					r.Case("fault", fmt.Sprint(op.Name, where, t.mech, t.err, o.FaultEv.Kind, trunc(o.FaultEv.SQL, 40)), o.Hit)
+					if !o.Hit {
+						r.H("fault_not_reached", op.Name)
+						if !reflect.DeepEqual(dump0, w.dump()) {
+							rebuild()
+						}
+						continue
+					}
+					reached = true
+					r.H("op", op.Name)
+					r.H("where", where)
+					r.H("mech", t.mech)
+					r.H("fault_kind", o.FaultEv.Kind)
+					if t.mech == "inject" {
+						r.H("err_value", t.err)
+						r.H("err_value@"+o.FaultEv.Kind, t.err)
+					} else if o.Err == nil {
+						r.H("cancel_outcome", "too late: applied")
+					} else {
+						switch {
+						case errors.Is(o.Err, sql.ErrTxDone):
+							r.H("cancel_outcome", "sql.ErrTxDone")
+						case errors.Is(o.Err, context.Canceled):
+							r.H("cancel_outcome", "context.Canceled")
+						default:
+							r.H("cancel_outcome", "other error")
+						}
+					}
+					if (g*31+k)%197 == 0 && t.mech == "inject" && t.err == "generic" {
+						r.Sample(map[string]interface{}{"input": sc, "events": evKinds(o.Events), "error": fmt.Sprint(o.Err)})
+					}
+					if o.Verdict != "" && op.Name == "SaveMissingKey" && listed("F17-C05-save-two-phase") && c05CommittedBefore(o.Events, sc) &&
+						(strings.HasPrefix(o.Verdict, "database changed") || strings.HasSuffix(o.Verdict, "applied only partially")) &&
+						(where == "plain" || where == "ctx" || where == "translate" || where == "prepare") {
+						// Save(value whose key matches no row): UPDATE phase (with its association upserts) commits in
+						// its own transaction before the INSERT phase starts; a fault in the second phase keeps them
+						r.KnownFinding("F17-C05-save-two-phase", o.Verdict+" ("+o.FaultEv.Kind+")")
+						rebuild()
+					} else if o.Verdict != "" {
+						r.Violate(Violation{Kind: "e2e", Suite: "fault", Input: sc, Observed: c05Obs(o, dump0), Expected: o.Verdict})
+						rebuild()
+					} else if !reflect.DeepEqual(dump0, o.Dump) {
+						rebuild() // legitimately applied (cancel came too late / skipdefault)
+					}
+				}
+				if !reached && k >= len(pevs) {
+					break
+				}
+			}
+			w.Close()
+		}
+	}
+}
+
+// c05CommittedBefore: did a COMMIT succeed before the fault took effect?  (a cancellation raised while the
+// COMMIT call itself is made comes too late for that COMMIT)
+func c05CommittedBefore(evs []Event, sc c05Scenario) bool {
+	k := sc.At
+	if sc.Mech == "cancel" {
+		k++
+	}
+	return committedBefore(evs, k)
+}
+
+func c05ReplayFault(r *Result, input json.RawMessage) {
+	var sc c05Scenario
+	if err := json.Unmarshal(input, &sc); err != nil {
+		r.Note("bad replay input: %v", err)
+		return
+	}
+	op, ok := c05OpByName(sc.Op)
+	if !ok {
+		r.Note("unknown op %q", sc.Op)
+		return
+	}
+	_, applied, perr := c05Probe(op, sc.Seed, sc.Where)
+	if perr != nil {
+		r.Note("probe failed: %v", perr)
+	}
+	w := c05Build(op, sc.Seed, sc.Where)
+	defer w.Close()
+	dump0 := w.dump()
+	// the world of the original run had executed the operation (rolled back) before: prepared-statement caches
+	// differ; replay the fault index on a fresh world and, if it is not reached, on a warmed one
+	for attempt := 0; attempt < 2; attempt++ {
+		o := c05RunOne(w, sc, dump0, applied)
+		r.Case("fault", fmt.Sprint(sc), o.Hit)
+		if o.Hit {
+			if o.Verdict != "" {
+				r.Violate(Violation{Kind: "e2e", Suite: "fault", Input: sc, Observed: c05Obs(o, dump0), Expected: o.Verdict})
+			}
+			return
+		}
+	}
+}
+
 func init() {
 	// correspondence: regenerated pipeline tables (Lean side) vs the order in which the real callbacks fire
 	register("C05", func(r *Result, rng *rand.Rand, tier string) {
@@ -200,88 +711,6 @@ func init() {
 			}
 		}
 	})
-	register("C05", func(r *Result, rng *rand.Rand, tier string) {
-		graphs := 30
-		if tier == "thorough" {
-			graphs = 300
-		} else if tier == "search" {
-			graphs = 40
-		}
-		ops := c05Ops()
-		for g := 0; g < graphs && !expired(); g++ {
-			for _, op := range ops {
-				seed := rng.Int63()
-				// probe run: how many driver calls does the operation make?
-				probe := c05Build(op, seed)
-				perr := probe.run(probe.db)
-				pevs := probe.rec.Snapshot()
-				probe.sqlDB.Close()
-				if perr != nil {
-					r.Note("probe of %s failed without fault: %v", op.Name, perr)
-					continue
-				}
-				w := c05Build(op, seed)
-				dump0 := dumpTables(w.db, w.rec)
-				for k := range pevs {
-					if !faultable(pevs[k]) {
-						continue
-					}
-					k := k
-					w.rec.Reset()
-					hit := false
-					w.rec.Fault = func(idx int, ev *Event) error {
-						if idx == k && faultable(*ev) {
-							hit = true
-							return errInjected
-						}
-						return nil
-					}
-					err := w.run(w.db)
-					w.rec.Fault = nil
-					evs := w.rec.Snapshot()
-					in := map[string]interface{}{"op": op.Name, "graph_seed": seed, "fault_at": k, "fault_event": pevs[k].Kind + " " + trunc(pevs[k].SQL, 60)}
-					r.Case("fault", fmt.Sprint(op.Name, k, pevs[k].Kind, trunc(pevs[k].SQL, 40)), hit)
-					r.H("op", op.Name)
-					r.H("fault_kind", pevs[k].Kind)
-					if !hit {
-						r.H("fault_not_reached", op.Name)
-						continue
-					}
-					verdict := ""
-					dump1 := dumpTables(w.db, w.rec)
-					switch {
-					case err == nil:
-						verdict = "operation reported no error although a driver call failed"
-					case !strings.Contains(err.Error(), errInjected.Error()):
-						verdict = "result error does not mention the driver failure: " + err.Error()
-					case !reflect.DeepEqual(dump0, dump1):
-						verdict = "database changed although the operation failed"
-					case w.rec.OpenTx != 0:
-						verdict = fmt.Sprintf("%d transaction(s) left open", w.rec.OpenTx)
-					case w.sqlDB.Stats().InUse != 0:
-						verdict = fmt.Sprintf("%d connection(s) left checked out", w.sqlDB.Stats().InUse)
-					}
-					if (g*31+k)%97 == 0 {
-						r.Sample(map[string]interface{}{"input": in, "events": evKinds(evs), "error": fmt.Sprint(err)})
-					}
-					if verdict != "" && op.Name == "SaveMissingKey" && listed("F17-C05-save-two-phase") && committedBefore(pevs, k) &&
-						strings.HasPrefix(verdict, "database changed") {
-						// Save(value whose key matches no row): UPDATE phase (with its association upserts) commits in
-						// its own transaction before the INSERT phase starts; a fault in the second phase keeps them
-						r.KnownFinding("F17-C05-save-two-phase", verdict+" ("+in["fault_event"].(string)+")")
-						w.sqlDB.Close()
-						w = c05Build(op, seed)
-						dump0 = dumpTables(w.db, w.rec)
-					} else if verdict != "" {
-						r.Violate(Violation{Kind: "e2e", Suite: "fault", Input: in, Observed: map[string]interface{}{"error": fmt.Sprint(err), "events": evKinds(evs), "before": dump0, "after": dump1}, Expected: verdict})
-						// rebuild a clean world
-						w.sqlDB.Close()
-						w = c05Build(op, seed)
-						dump0 = dumpTables(w.db, w.rec)
-					}
-				}
-				w.sqlDB.Close()
-			}
-		}
-	})
+	register("C05", c05FaultSuite)
+	replayers["C05/fault"] = c05ReplayFault
 }
